@@ -69,7 +69,7 @@ class Run:
         self.gated = False
         self.gate_kinds = tuple(self.cfg.get("gates") or ())
         self.loop = VLoop(chooser, early,
-                          max_iterations=self.cfg.get("max_iterations", 20000))
+                          max_iterations=self.cfg.get("max_iterations", 12000))
         self.loop_errors = []
         self.world = None
         self.result = None
@@ -77,6 +77,7 @@ class Run:
         self.channels = []
         self.on_event = None
         self.dead = False
+        self.max_events = int(self.cfg.get("max_events", 1500))
         self.times = []
         self.latency = None
         self.on_setup_done = None
@@ -86,6 +87,9 @@ class Run:
         if self.dead:
             return        # a stale simulator object of a finished run (finalized by the GC)
         self.trace.append(a)
+        if len(self.trace) > self.max_events:
+            # a run that never ends (e.g. a same-time loop that nothing stops any more)
+            raise Livelock(f"more than {self.max_events} simulator events")
         self.times.append(self.loop.time())
         if self.on_event is not None:
             self.on_event(a)
@@ -129,7 +133,7 @@ class Run:
                 groups[gid] = w.current_group
         ents = {}
         byid = {s["sid"]: s for s in scen["sims"]}
-        order = cfg.get("order") or [s["sid"] for s in scen["sims"]]
+        order = cfg.get("order") or scen.get("order") or [s["sid"] for s in scen["sims"]]
         for sid in order:
             s = byid[sid]
             w.current_group = groups[s.get("group")]
